@@ -244,4 +244,11 @@ def run(chk):
 def replay(chk, rep):
     import json
     print(json.dumps(rep, indent=1)[:3000])
+    # a recorded guard-part case: run the same command again on the recorded input, with the same caps
+    if rep.get("part") == "guards" and rep.get("input") and rep.get("argv") and os.path.exists(rep["input"]):
+        rc, so, se, cpu, rss, wall = c04guards.run_qpdf_capped(common.QPDF, rep["argv"][1:], rep["input"])
+        size = os.path.getsize(rep["input"])
+        print("replayed: exit=%s cpu=%.2fs rss=%dkB wall=%.1fs input=%d bytes (budget %.2f s, %d kB)" % (
+            rc, cpu, rss, wall, size, c04guards.CPU_BUDGET[0] + c04guards.CPU_BUDGET[1] * size, c04guards.RSS_BUDGET[0] + c04guards.RSS_BUDGET[1] * size))
+        print(se[-1500:].decode("latin-1"))
     return 0
